@@ -51,32 +51,38 @@ Qed.
 Lemma set_text_id p : set_text p (pp_text p) = p.
 Proof. now destruct p. Qed.
 
-Lemma store_parts_inline : forall todo bs done rows bs' rows',
-  store_parts hash bs done todo rows = (bs', rows') ->
+Lemma store_parts_inline : forall todo faults bs done rows bs' rows',
+  store_parts hash faults bs done todo rows = (bs', rows') ->
   exists ext new, bs' = bs ++ ext /\ rows' = rows ++ new /\
     forall later, map (inline_row (bs' ++ later)) new = rowsP_aux done todo.
 Proof.
-  induction todo as [|p rest IH]; intros bs done rows bs' rows' H; simpl in H.
+  induction todo as [|p rest IH]; intros faults bs done rows bs' rows' H; simpl in H.
   - injection H as <- <-. exists [], []. rewrite !app_nil_r. repeat split; reflexivity.
   - destruct (out_of_line p) eqn:OL.
-    + destruct (store_blob_spec bs (pp_text p) (pp_cte p)) as (ext0 & E1 & E2).
-      destruct (store_blob hash bs (pp_text p) (pp_cte p)) as [b id] eqn:SB. cbn [fst snd] in E1, E2.
-      destruct (str_eqb (get_blob b id) (pp_text p)) eqn:Q.
-      * apply IH in H as (ext & new & -> & -> & Hn).
-        exists (ext0 ++ ext), (mk_row (S (length (filter (fun q => opt_nat_eqb (pp_parent q) (pp_parent p)) done)))
+    + destruct (hd false faults) eqn:FL.
+      * (* the blob store failed: the part stays in line, the blob table is unchanged *)
+        apply IH in H as (ext & new & -> & -> & Hn).
+        eexists ext, (_ :: new). split; [reflexivity|]. split; [now rewrite <- app_assoc|].
+        intros later. cbn [map rowsP_aux]. rewrite Hn. f_equal.
+        unfold inline_row, row_content. cbn. now destruct p.
+      * destruct (store_blob_spec bs (pp_text p) (pp_cte p)) as (ext0 & E1 & E2).
+        destruct (store_blob hash bs (pp_text p) (pp_cte p)) as [b id] eqn:SB. cbn [fst snd] in E1, E2.
+        destruct (str_eqb (get_blob b id) (pp_text p)) eqn:Q.
+        -- apply IH in H as (ext & new & -> & -> & Hn).
+           exists (ext0 ++ ext), (mk_row (S (length (filter (fun q => opt_nat_eqb (pp_parent q) (pp_parent p)) done)))
                                  (match pp_parent p with Some j => if j <? length done then Some j else None | None => None end)
                                  (mk_pp (pp_parent p) (pp_type p) (pp_disp p) (pp_cte p) (pp_charset p) (pp_filename p) (pp_cid p) [])
                                  (Some id) :: new).
-        split; [rewrite E1; now rewrite app_assoc|]. split; [now rewrite <- app_assoc|].
-        intros later. cbn [map rowsP_aux]. rewrite Hn. f_equal.
-        unfold inline_row, row_content. cbn [r_pn r_parent r_part r_blob].
-        rewrite <- app_assoc, get_blob_app by (rewrite E1; exact E2).
-        apply str_eqb_eq in Q. rewrite Q. unfold set_text. cbn. now destruct p.
-      * apply IH in H as (ext & new & -> & -> & Hn).
-        eexists (ext0 ++ ext), (_ :: new).
-        split; [rewrite E1; now rewrite app_assoc|]. split; [now rewrite <- app_assoc|].
-        intros later. cbn [map rowsP_aux]. rewrite Hn. f_equal.
-        unfold inline_row, row_content. cbn. now destruct p.
+           split; [rewrite E1; now rewrite app_assoc|]. split; [now rewrite <- app_assoc|].
+           intros later. cbn [map rowsP_aux]. rewrite Hn. f_equal.
+           unfold inline_row, row_content. cbn [r_pn r_parent r_part r_blob].
+           rewrite <- app_assoc, get_blob_app by (rewrite E1; exact E2).
+           apply str_eqb_eq in Q. rewrite Q. unfold set_text. cbn. now destruct p.
+        -- apply IH in H as (ext & new & -> & -> & Hn).
+           eexists (ext0 ++ ext), (_ :: new).
+           split; [rewrite E1; now rewrite app_assoc|]. split; [now rewrite <- app_assoc|].
+           intros later. cbn [map rowsP_aux]. rewrite Hn. f_equal.
+           unfold inline_row, row_content. cbn. now destruct p.
     + apply IH in H as (ext & new & -> & -> & Hn).
       eexists ext, (_ :: new). split; [reflexivity|]. split; [now rewrite <- app_assoc|].
       intros later. cbn [map rowsP_aux]. rewrite Hn. f_equal.
